@@ -457,6 +457,11 @@ def hom_menu(n, kind):
         "uses_inv_argument": (lambda M, inv=None: inv.T, lambda M: np.linalg.inv(M).T, 1),
         "det": (lambda M: np.array([[np.linalg.det(M)]]), lambda M: np.array([[np.linalg.det(M)]]),
                 n),
+        # a map with an optional second parameter that is not the inverse (as lie.o_to_pgl has
+        # its bilinear form there): the representation leaves it at its default
+        "second_parameter_not_inv": (
+            lambda M, basis=None: np.kron(M, M) if basis is None else
+            np.kron(M, M) @ np.kron(basis, basis), lambda M: np.kron(M, M), 2),
         "entrywise_conjugate": (lambda M: np.conj(M), lambda M: np.conj(M), 1),
         "block_sum_with_dual": (_block_sum, _block_sum, 1),
         "lie.hom.block_include": (H.block_include(n + 2), lambda M: _block_include(M, n + 2), 1),
@@ -477,6 +482,7 @@ def hom_menu(n, kind):
 
 
 HOM_NAMES = ["identity", "kron", "inverse_transpose", "uses_inv_argument", "det",
+             "second_parameter_not_inv",
              "entrywise_conjugate", "block_sum_with_dual", "lie.hom.block_include",
              "lie.hom.slc_to_slr", "lie.hom.gln_adjoint", "lie.hom.sln_adjoint",
              "lie.hom.gln_adjoint(dtype)", "lie.hom.sln_adjoint(dtype)",
